@@ -100,6 +100,9 @@ def gen_rich(ctx, i):
     p = spec.gen_program(rng, f"o{i:04d}", n_ifaces=rng.choice([0, 1, 2, 3]))
     if kind == 1:
         spec.gen_reply_table(rng, p)
+        unify_payload_names(p)
+        if i % 6 == 4:
+            mix_raw_marks(rng, p)
     if kind == 2:
         ks = rng.sample(spec.ALL_EP_KINDS, rng.choice([1, 2, 3]))
         p["overrides"] = [{"kind": k, "fn": f"ov_{k}", "msg": "svmon::OvMsg"} for k in ks]
@@ -107,6 +110,43 @@ def gen_rich(ctx, i):
             kinds = ["instantiate", "exec", "query", "sudo"] if part["id"] == "c" else ["exec", "query", "sudo"]
             part["msg_attrs"] = [(rng.choice(kinds), f"derive(Mark{j})") for j in range(rng.choice([1, 2, 3]))]
     return p
+
+
+def unify_payload_names(p):
+    """Methods serving one handler name get the same payload parameter names.  sylvia names the locals of that
+    handler's dispatch arm and the parameters of its `SubMsgMethods` builder after the first such method it meets;
+    with different names per method the expansions of two orders are alpha-variants of each other, not equal
+    texts, and parameter names are not behaviour (a false alarm of the textual comparison otherwise: DESIGN 10)."""
+    ms = (p.get("reply_table") or {}).get("methods", [])
+    comp = {id(m): {id(m)} for m in ms}
+    by_id = {id(m): m for m in ms}
+    for a in ms:
+        for b in ms:
+            if a is not b and set(a["serves"]) & set(b["serves"]):
+                u = comp[id(a)] | comp[id(b)]
+                for x in u:
+                    comp[x] = u
+    for m in ms:
+        lead = min((by_id[x] for x in comp[id(m)]), key=lambda q: q["name"])
+        if len(lead["payload_names"]) == len(m["payload_names"]):
+            m["payload_names"] = list(lead["payload_names"])
+
+
+def mix_raw_marks(rng, p):
+    """Makes a success and an error method of one handler name disagree on `sv::payload(raw)` (both take one `Binary`)."""
+    from .. import types as T
+    ms = p["reply_table"]["methods"]
+    for a in ms:
+        for b in ms:
+            if a["reply_on"] == "success" and b["reply_on"] == "error" and set(a["serves"]) & set(b["serves"]):
+                bn = spec.intern_type(p, T.BINARY)
+                for m in ms:
+                    if set(m["serves"]) & (set(a["serves"]) | set(b["serves"])):
+                        m["payload"] = [bn]
+                        m["payload_names"] = ["payload"]
+                rng.choice([a, b])["raw_mark"] = True
+                p["inconsistent_raw_marks"] = True
+                return
 
 
 def inproc_part(ctx):
@@ -138,6 +178,18 @@ def inproc_part(ctx):
             ctx.ev()
             d = {"program": p["name"], "permutation": order, "item": suffix,
                  "original_status": r0["status"], "permuted_status": r["status"]}
+            if p.get("inconsistent_raw_marks"):
+                # not a valid program (one handler name, two payload wire formats): either order must be refused; were both
+                # accepted, the first declared method would decide the format -- the defect repaired by d781708
+                ctx.count("inconsistent_raw_mark_orders")
+                if r["status"] != r0["status"]:
+                    ctx.violate("acceptance-depends-on-order:mixed-raw", f"{p['name']} ({suffix}): {r0['status']} in one declaration order, {r['status']} under permutation {order}", d)
+                elif r["status"] == "clean" and normalise(r0["view"]) != normalise(r["view"]):
+                    ctx.violate("payload-format-depends-on-order", f"{p['name']} ({suffix}): methods of one reply handler disagree on sv::payload(raw), the program is accepted, "
+                                f"and the declaration order decides whether the payload is raw bytes or JSON (permutation {order})", d)
+                else:
+                    ctx.nontrivial([p["name"], suffix, "mixed-raw", json.dumps(order, sort_keys=True)])
+                continue
             if r0["status"] != "clean":
                 ctx.violate("original-rejected", f"{p['name']}: valid program is rejected in its original order ({r0['status']})", d)
                 continue
